@@ -541,8 +541,8 @@ def snprintf_clause(prop, res):
                                      "d->buf and d->size are not advanced by the same amount together (line %d): later writes are bounded "
                                      "by a stale size" % ln))
         res["samples"].append(dict(rule="R-PRINTF.snprintf", function=fn["name"], helpers=sorted(summaries)))
-    if res["stats"]["buffer_writes"] < 4:
-        raise AnalysisBroken("R-PRINTF: only %d writes through d->buf found in snprntffuns.c (floor 4)" % res["stats"]["buffer_writes"])
+    if res["stats"]["buffer_writes"] < 2:
+        raise AnalysisBroken("R-PRINTF: only %d writes through d->buf found in snprntffuns.c (floor 2; today 4)" % res["stats"]["buffer_writes"])
 
 
 def conversion_coverage(prop, res):
@@ -669,8 +669,8 @@ def asprintf_headroom(prop, res):
                                  "in %s the test that skips the reallocation in GMP_ASPRINTF_T_NEED does not entail alloc >= size + n + 1: "
                                  "when the output so far plus the new piece equals the allocation exactly, the terminating NUL of "
                                  "__gmp_asprintf_final is stored one byte past the block" % fn["name"]))
-    if n < 3:
-        raise AnalysisBroken("R-PRINTF: only %d expansions of GMP_ASPRINTF_T_NEED found (floor 3)" % n)
+    if n < 1:
+        raise AnalysisBroken("R-PRINTF: no expansion of GMP_ASPRINTF_T_NEED found (floor 1; today 3)")
 
 
 def run(prop="C18", tier="quick"):
